@@ -16,7 +16,9 @@
      reference decoder returns the value (SET OF: elements in the order written, i.e.
      the same value up to SET OF order) and consumes exactly the encoding;
    - every permutation of SET OF elements is denoted by some oracle;
-   - DER is the member of the family with the canonical choices.
+   - DER is the member of the family with the canonical choices;
+   - (later rounds, below) tag-to-member maps, OER length determinants in every form, and
+     the XER text reader: every legal spelling of every character is read as that character.
    Not modelled in Coq (tie only, see notes/design/C03.md): constructed OCTET STRINGs,
    UPER/OER/XER variants, and the C's ber_check_tags chain rule (the reference decoder
    accepts mixed chains; the C does not: finding C03-ber-chain-mixed-lengths). *)
